@@ -461,6 +461,8 @@ class Session:
         return fs
 
     def _twin_fail(self, d, op, accepted=None):
+        if self.twin_lost:
+            return  # the real-code twins were given up earlier (a restart changed the object by design)
         k = op["op"]
         if k in EDIT_OPS and accepted is False:
             cands = ["C15"]
